@@ -11,7 +11,7 @@ use std::sync::{Arc, Mutex};
 #[derive(Clone, Debug, PartialEq)]
 pub enum Request {
     /// GET /<bucket>?list-type=2&prefix=..[&max-keys=..]
-    List { bucket: String, prefix: String, max_keys: Option<usize>, raw: String },
+    List { bucket: String, prefix: String, max_keys: Option<usize>, continuation: Option<String>, raw: String },
     /// GET /<bucket>/<key>
     Get { bucket: String, key: String, raw: String },
     Other { raw: String },
@@ -141,14 +141,18 @@ pub fn parse_request(head: &str) -> Request {
         if q.split('&').any(|kv| kv == "list-type=2") && key.is_empty() {
             let mut prefix = String::new();
             let mut max_keys = None;
+            let mut continuation = None;
             for kv in q.split('&') {
                 if let Some(v) = kv.strip_prefix("prefix=") {
                     prefix = percent_decode(v);
                 } else if let Some(v) = kv.strip_prefix("max-keys=") {
                     max_keys = v.parse().ok();
+                } else if let Some(v) = kv.strip_prefix("continuation-token=") {
+                    // query-string decoding as every HTTP server does it: '+' is a space
+                    continuation = Some(percent_decode(&v.replace('+', " ")));
                 }
             }
-            return Request::List { bucket, prefix, max_keys, raw };
+            return Request::List { bucket, prefix, max_keys, continuation, raw };
         }
     }
     Request::Get { bucket, key: percent_decode(&key), raw }
@@ -356,7 +360,36 @@ fn xml_charrefs(s: &str) -> String {
 /// information: 0 canonical; 1 Size first; 2 Key last; 3 pretty-printed (whitespace text nodes);
 /// 4 numeric character references instead of entities / raw non-ASCII; 5 an <Owner> element with
 /// children and a <ChecksumAlgorithm> inside every <Contents>; 6 pretty + owner.
+/// ListObjectsV2 paging: the slice of `all` (already filtered and in bucket order) that one response
+/// carries, and the continuation token a truncated page hands out. Tokens are opaque base64-like
+/// text containing '+', '/' and '=' as real ones do; a token that does not come back exactly as
+/// issued (after standard query-string decoding) is rejected: Err(()) = 400 InvalidArgument.
+pub fn page(all: &[Obj], max_keys: Option<usize>, continuation: &Option<String>) -> Result<(Vec<Obj>, Option<String>), ()> {
+    let start = match continuation {
+        None => 0,
+        Some(t) => {
+            let inner = t.strip_prefix("AQ+").and_then(|r| r.strip_suffix("/Zz==")).ok_or(())?;
+            usize::from_str_radix(inner, 16).map_err(|_| ())?
+        }
+    };
+    if start > all.len() {
+        return Err(());
+    }
+    let lim = max_keys.unwrap_or(1000).min(1000);
+    let end = (start + lim).min(all.len());
+    let next = if end < all.len() { Some(format!("AQ+{:x}/Zz==", end)) } else { None };
+    Ok((all[start..end].to_vec(), next))
+}
+
+pub fn invalid_argument_xml() -> String {
+    "<?xml version=\"1.0\" encoding=\"UTF-8\"?>\n<Error><Code>InvalidArgument</Code><Message>The continuation token provided is incorrect</Message></Error>".to_string()
+}
+
 pub fn list_xml(bucket: &str, prefix: &str, objs: &[Obj], truncated: bool, order: u8) -> String {
+    list_xml_tok(bucket, prefix, objs, truncated, order, None)
+}
+
+pub fn list_xml_tok(bucket: &str, prefix: &str, objs: &[Obj], truncated: bool, order: u8, next_token: Option<&str>) -> String {
     let pretty = order == 3 || order == 6;
     let owner = order == 5 || order == 6;
     let esc = |x: &str| if order == 4 { xml_charrefs(x) } else { xml_escape(x) };
@@ -366,6 +399,9 @@ pub fn list_xml(bucket: &str, prefix: &str, objs: &[Obj], truncated: bool, order
     s.push_str("<ListBucketResult xmlns=\"http://s3.amazonaws.com/doc/2006-03-01/\">");
     s.push_str(&format!("{nl}<Name>{}</Name>{nl}<Prefix>{}</Prefix>{nl}<KeyCount>{}</KeyCount>{nl}<MaxKeys>1000</MaxKeys>", esc(bucket), esc(prefix), objs.len()));
     s.push_str(&format!("{nl}<IsTruncated>{}</IsTruncated>", truncated));
+    if let Some(t) = next_token {
+        s.push_str(&format!("{nl}<NextContinuationToken>{}</NextContinuationToken>", esc(t)));
+    }
     for o in objs {
         let key = format!("<Key>{}</Key>", esc(&o.key));
         let lm = format!("<LastModified>{}</LastModified>", iso8601(o.modified_ms, o.fractional));
